@@ -59,6 +59,10 @@ class Session:
         self.seen_packets_server = []
         self.seen_packets_client = []
 
+        # sequence number of the next byte to be framed per direction (None until a segment was seen)
+        self.server_next_seq = None
+        self.client_next_seq = None
+
         self.can_decrypt = False
         self.client_hello_seen = False
 
@@ -496,10 +500,17 @@ class Session:
     def extract_server_buf(self):
         """Extracts packets from session which together contain complete TLS_Records"""
         self.server_counter += 1
-        self.server_packet_buffer.sort(key=lambda x: x.seq)
+        if self.server_next_seq is None:
+            self.server_next_seq = self.server_packet_buffer[0].seq
+        # order by distance from the next expected byte, sequence numbers wrap at 2^32
+        self.server_packet_buffer.sort(key=lambda x: (x.seq - self.server_next_seq) & 0xFFFFFFFF)
+
+        if self.server_packet_buffer[0].seq != self.server_next_seq:
+            # a segment that precedes the buffered ones has not been seen yet
+            return
 
         for i in range(0, len(self.server_packet_buffer) - 1):
-            if self.server_packet_buffer[i].seq + len(self.server_packet_buffer[i].tls_data) != \
+            if (self.server_packet_buffer[i].seq + len(self.server_packet_buffer[i].tls_data)) & 0xFFFFFFFF != \
                     self.server_packet_buffer[i + 1].seq:
                 # need more packets (missing packets)
                 return
@@ -544,15 +555,23 @@ class Session:
                 self.server_tls_records.append(tls_record)
 
                 index += record_len
+            self.server_next_seq = (self.server_next_seq + total_packet_len) & 0xFFFFFFFF
             self.server_packet_buffer.clear()
 
     def extract_client_buf(self):
         """Extracts packets from session which together contain complete TLS_Records"""
         self.client_counter += 1
-        self.client_packet_buffer.sort(key=lambda x: x.seq)
+        if self.client_next_seq is None:
+            self.client_next_seq = self.client_packet_buffer[0].seq
+        # order by distance from the next expected byte, sequence numbers wrap at 2^32
+        self.client_packet_buffer.sort(key=lambda x: (x.seq - self.client_next_seq) & 0xFFFFFFFF)
+
+        if self.client_packet_buffer[0].seq != self.client_next_seq:
+            # a segment that precedes the buffered ones has not been seen yet
+            return
 
         for i in range(0, len(self.client_packet_buffer) - 1):
-            if self.client_packet_buffer[i].seq + len(self.client_packet_buffer[i].tls_data) != \
+            if (self.client_packet_buffer[i].seq + len(self.client_packet_buffer[i].tls_data)) & 0xFFFFFFFF != \
                     self.client_packet_buffer[i + 1].seq:
                 # need more packets (missing packets)
                 return
@@ -597,4 +616,5 @@ class Session:
                 self.client_tls_records.append(tls_record)
 
                 index += record_len
+            self.client_next_seq = (self.client_next_seq + total_packet_len) & 0xFFFFFFFF
             self.client_packet_buffer.clear()
